@@ -15,6 +15,8 @@ COMPONENTS = {
     "mul": dict(driver_mode="mul", targets=[("multi", "multi.cpp", "")]),
     "capi": dict(driver_mode="capi", targets=[("capi", "capi.cpp", R.REPO + "/c-interface/cpgm.cpp")]),
 }
+# composite component: every harness reads the same case file and answers only the kinds it knows
+COMPONENTS["all"] = dict(driver_mode="all", targets=[t for k in ("idx", "dyn", "var", "map", "mul", "capi") for t in COMPONENTS[k]["targets"]])
 
 TRUSTED_COMMON = [
     "Coq 8.16.1 kernel (coqc); vm_compute used in Examples only; no native_compute",
@@ -60,6 +62,10 @@ PROPS = {
              nontrivial=lambda line: len(line.split("|")[1].split()) >= 3),
     "C18": P(comp="capi", gen=lambda t, s: gens.gen_capi(t, s), judges=["C18"], kinds=("CIX", "CDY"),
              nontrivial=lambda line: len(line.split("|")[1].split()) >= 2),
+    "C20": P(comp="all", gen=lambda t, s: gens.gen_reject(t, s), judges=["C20"], kinds=("IDX", "BKT", "EFI", "MAP", "CIX", "MUL", "DYN", "PLA"),
+             nontrivial=lambda line: True),
+    "C17": P(comp="all", gen=lambda t, s: gens.gen_all(t, s, 0.25 if t == "quick" else 1.0), judges=["C17"], san=True,
+             kinds=("IDX", "SEG", "BKT", "EFI", "MAP", "CIX", "CDY", "MUL", "DYN", "PLA"), nontrivial=lambda line: True),
     "C03": P(comp="idx", gen=lambda t, s: gens.gen_seg(t, s), judges=["C03"], kinds=("SEG",),
              nontrivial=lambda line: len(line.split("|")[1].split()) >= 3),
     "C04": P(comp="idx", gen=lambda t, s: gens.gen_seg(t, s + 5), judges=["C04"], kinds=("SEG",),
@@ -153,7 +159,7 @@ def check(pid, tier, seed, args, t0):
     if not model_ok: broken.append("the model no longer compiles against the regenerated Gen*.v (Extract.vo stale)")
 
     # 4 harness
-    exes, blog = R.build_harness(comp["targets"])
+    exes, blog = R.build_harness(comp["targets"], san=bool(spec.get("san")), flags=spec.get("flags"))
     if blog:
         # the repository no longer compiles with the harness: nothing can be executed
         print(blog[-2000:])
@@ -164,6 +170,9 @@ def check(pid, tier, seed, args, t0):
         return 1
     exelist = [exes[t[0]] for t in comp["targets"]]
     env = probe_env(exelist[0])
+    if spec.get("san"):
+        e2 = dict(os.environ); e2["ASAN_OPTIONS"] = "detect_leaks=0:abort_on_error=0"; e2["UBSAN_OPTIONS"] = "print_stacktrace=1"
+        e2["TSAN_OPTIONS"] = "halt_on_error=1"; env["env"] = e2
 
     # 5-6 correspond + judge
     if args.replay:
@@ -180,9 +189,9 @@ def check(pid, tier, seed, args, t0):
         fails = []
         for j in spec["judges"]:
             fails += [(cid, what, j) for cid, what in jfails.get(j, [])]
-        for exe, rc, out in crashed:
+        for exe, rc, out, last in crashed:
             # the crashing case is the last one the executable started
-            notes.append("harness %s exited with %s: %s" % (exe, rc, out[-300:]))
+            notes.append("harness %s exited with %s on case %s: %s" % (exe, rc, last, out[-300:]))
         def rerun_fails(line):
             i2, m2, jf2, _, cr2 = R.run_component(comp["driver_mode"], [line], work, "shrink", exelist, driver, env, timeout=300)
             return any(jf2.get(j) for j in spec["judges"]) or bool(cr2)
@@ -206,9 +215,11 @@ def check(pid, tier, seed, args, t0):
             open(rp, "w").write("# property %s judge %s failed on the implementation's output: %s\n# replay: python3 run.py --property %s --replay %s\n%s\n" % (pid, j, what, pid, rp, small))
             violations.append((rp, False))
         if crashed and not violations:
-            rp = os.path.join(replay_dir, "%s-crash.case" % pid)
-            open(rp, "w").write("# harness crashed: %s\n%s\n" % (crashed, "\n".join(cases[:50])))
-            violations.append((rp, False))
+            for ci, (exe, rc, out, last) in enumerate(crashed[:3]):
+                rp = os.path.join(replay_dir, "%s-crash%d.case" % (pid, ci))
+                rep = "\n".join("# " + l for l in out.splitlines()[-25:])
+                open(rp, "w").write("# the implementation (harness %s) terminated abnormally (exit %s) on this case\n%s\n%s\n" % (exe, rc, rep, by_id.get(last, "\n".join(cases[:20]))))
+                violations.append((rp, False))
         if (broken or diffs) and not violations and not known_hits:
             # proof or correspondence broken, judge found nothing: widen the search once
             extra, _ = spec["gen"]("thorough" if tier == "quick" else "thorough", seed + 977)
